@@ -1088,12 +1088,14 @@ func (z *Decimal) SetFloat(x *big.Float) *Decimal {
 	i, _ := f.Int(nil)
 	exp2 -= int64(fprec)
 	// x = i × 2**exp2
-	if lim := 4*int64(z.prec) + 64; -lim <= exp2 && exp2 <= lim {
+	if lim := 4*int64(z.prec) + 64; -lim <= exp2 && exp2 <= lim+int64(fprec) {
 		// The decimal expansion of x is short enough that it might fit z.prec
 		// digits, in which case it must be stored exactly: build the integer
 		// i×2**exp2, or i×5**-exp2 to be scaled by 10**exp2, and round once.
 		// (The naive scaling below rounds several times: SetFloat(30) at
-		// precision 1 gave 40 under AwayFromZero.)
+		// precision 1 gave 40 under AwayFromZero.) For exp2 > 0, i may
+		// contribute powers of five that pair with 2**exp2 into trailing
+		// zeros (1e69 = 5**69 × 2**69), hence the wider bound on that side.
 		if exp2 > 0 {
 			i.Lsh(i, uint(exp2))
 		} else if exp2 < 0 {
